@@ -163,3 +163,17 @@ pub struct PoolSnapshot {
     /// The configured idle bound.
     pub max_idle_per_host: usize,
 }
+
+/// Hash collections with a fixed hasher state. `std`'s `RandomState` gives every map its own
+/// keys, so the order in which a map's values are visited *and dropped* differs from one
+/// execution to the next; dropping the pool's maps wakes connection tasks, which made the order
+/// of wake-ups (and therefore schedules) irreproducible under a controlled executor.
+pub mod det {
+    use std::collections::hash_map::DefaultHasher;
+    use std::hash::BuildHasherDefault;
+
+    /// `HashMap` with a fixed hasher state.
+    pub type HashMap<K, V> = std::collections::HashMap<K, V, BuildHasherDefault<DefaultHasher>>;
+    /// `HashSet` with a fixed hasher state.
+    pub type HashSet<K> = std::collections::HashSet<K, BuildHasherDefault<DefaultHasher>>;
+}
